@@ -297,7 +297,12 @@ func (f *DataFacts) partition(r *core.Rand) string {
 
 func (f *DataFacts) StringCond(r *core.Rand) bs.StringCondition {
 	a, b := f.partition(r), f.partition(r)
-	switch r.Intn(10) {
+	switch r.Intn(12) {
+	case 10:
+		return bs.PartitionLessThan(a)
+	case 11:
+		// bounds in either order (an empty interval is a legal condition)
+		return bs.PartitionBetween(a, b)
 	case 0, 1:
 		return bs.PartitionEquals(a)
 	case 2:
